@@ -2,4 +2,4 @@ From Coq Require Import ExtrOcamlBasic.
 From HV Require Import Base.Res Base.Str Model.Onset Model.Timeline.
 Extraction Language OCaml.
 Extraction "../ocaml/build/c10_model.ml"
-  force_types run_trace process_file casefold.
+  force_types run_trace process_file validate_seq casefold.
